@@ -113,7 +113,7 @@ def parse_profile_yaml(text):
     innames = False
     for line in text.splitlines():
         s = line.strip()
-        if s.startswith("names:"):
+        if s.startswith("names:") or s.startswith("- names:"):
             innames = True
             if s.endswith("[]"):
                 innames = False
